@@ -13,7 +13,7 @@ import (
 func init() {
 	register("C08", &propDef{
 		Title: "A finished bundle contains everything that was added or discovered",
-		Rules: []func(*Checker){ruleC08NoDrop, ruleC08Drain, ruleC08Callbacks, ruleC08Manifest, ruleC08SameJoin, ruleC08Lookup, ruleC08Meta, ruleCopiedWhenEmpty("C08.metacopy"), ruleArgOrder("C08.argorder"), ruleTracerNonNil("C08.tracer"), ruleNameAgreement("C08.names", "sourcebundle"), aliasRule(ruleC11JoinOrder, "C11.joinorder", "C08.finaladdr", 3)},
+		Rules: []func(*Checker){ruleC08NoDrop, ruleC08Drain, ruleC08Callbacks, ruleC08Manifest, ruleC08SameJoin, ruleC08Lookup, ruleC08Meta, ruleCopiedWhenEmpty("C08.metacopy"), ruleArgOrder("C08.argorder"), ruleTracerNonNil("C08.tracer"), ruleNameAgreement("C08.names", "sourcebundle"), ruleC08DirName, ruleRecordComplete("C08.complete"), aliasRule(ruleC11JoinOrder, "C11.joinorder", "C08.finaladdr", 3)},
 		NotDecided: []string{
 			"transitive closure over arbitrary dependency graphs and the content of fetched files (run-time facts)",
 			"that looked-up paths exist on disk",
@@ -35,7 +35,7 @@ func init() {
 	})
 	register("C10", &propDef{
 		Title: "Bundle package directories are sanitised",
-		Rules: []func(*Checker){ruleC10Walked, ruleC10Exits, ruleC10Links, aliasRuleFiltered(ruleC13Names, "C13.names", "C10.hash", 1, func(o Oblig) bool { return strings.Contains(o.Key, "directory name is a content hash") }), ruleC10Tmp, ruleC10Inside, ruleC03PruneAs("C10.ignored"), ruleC03BundleAs("C10.removed"), ruleBuilderAbsDir("C10.absdir")},
+		Rules: []func(*Checker){ruleC10Walked, ruleC10Exits, ruleC10Links, aliasRuleFiltered(ruleC13Names, "C13.names", "C10.hash", 1, func(o Oblig) bool { return strings.Contains(o.Key, "directory name is a content hash") }), ruleC10Tmp, ruleC10Inside, ruleC03PruneAs("C10.ignored"), ruleC03BundleAs("C10.removed"), ruleBuilderAbsDir("C10.absdir"), ruleBundleWalkChain("C10.chain")},
 		NotDecided: []string{
 			"what filepath.EvalSymlinks resolves to; races with other processes modifying the temporary directory",
 			"what the fetcher itself writes",
@@ -2601,4 +2601,438 @@ func ruleNameAgreement(id string, pkgs ...string) func(*Checker) {
 			})
 		}
 	}
+}
+
+// C10.chain — the bundle walk's values are used in their own roles.
+func ruleBundleWalkChain(id string) func(*Checker) {
+	return func(c *Checker) {
+		c.rule(id, "In the bundle preparation walk: (1) the entry's name is the walked path relative to the factory's root parameter, and the root entry itself (\".\") returns before any rule is consulted; (2) a rule verdict is used only past the nil edge of its error; (3) the verdict for the directory form (the name plus separator) is what decides the recursive removal — on its Dominating edge — and takes part in the empty-directory removal; (4) a link's target is joined onto filepath.Dir of the entry's name; (5) the resolved-path containment compares EvalSymlinks(Abs(root)) with EvalSymlinks of that root joined with the name, and (6) the type test is an Lstat of that same resolved path. Every one of these has a same-typed neighbour (root / absRoot / absPath / reAbsPath / realPath; ignored / subtree) that compiles in its place.", 8)
+		p := c.P
+		var w, g *ssa.Function
+		for _, fn := range p.Funcs {
+			if !inBundlePkg(p, fn) || fn.Parent() == nil || len(fn.Params) != 3 {
+				continue
+			}
+			if len(callsTo(fn, func(o *types.Func) bool { return o != nil && o.Name() == "Excludes" })) > 0 && len(callsTo(fn, func(o *types.Func) bool { return isFunc(o, "path/filepath", "IsLocal") })) > 0 {
+				w, g = fn, fn.Parent()
+			}
+		}
+		if w == nil {
+			c.anchorMissing(id, "the bundle preparation walk callback")
+			return
+		}
+		name := p.FuncName(w)
+		pathPrm := w.Params[0]
+		rootIdx := -1
+		for i, prm := range g.Params {
+			if isStringType(prm.Type()) {
+				rootIdx = i
+			}
+		}
+		// (1)
+		var rel1 *ssa.Call
+		for _, ci := range callsTo(w, func(o *types.Func) bool { return isFunc(o, "path/filepath", "Rel") }) {
+			if cl, ok := ci.(*ssa.Call); ok && canon(cl.Call.Args[1]) == ssa.Value(pathPrm) {
+				rel1 = cl
+			}
+		}
+		if rel1 == nil {
+			c.fail(id, name, "entry name", p.Pos(w.Pos()), "the walked path is never made relative")
+			return
+		}
+		c.check(capturedParamOf(rel1.Call.Args[0], g) == rootIdx, id, name, "entry name relative to the package root", p.Pos(rel1.Pos()), "filepath.Rel(root, path)", "the walked path is made relative to something other than the factory's root")
+		relPath := extractOf(rel1, 0)
+		_, notDot := condEdges(w, func(v ssa.Value) bool {
+			bo, ok := v.(*ssa.BinOp)
+			if !ok || bo.Op != token.EQL {
+				return false
+			}
+			k, isC := constString(bo.Y)
+			return isC && k == "." && canon(bo.X) == relPath
+		})
+		neDot, _ := condEdges(w, func(v ssa.Value) bool {
+			bo, ok := v.(*ssa.BinOp)
+			if !ok || bo.Op != token.NEQ {
+				return false
+			}
+			k, isC := constString(bo.Y)
+			return isC && k == "." && canon(bo.X) == relPath
+		})
+		notDot = append(notDot, neDot...)
+		var exCalls []*ssa.Call
+		for _, ci := range callsTo(w, func(o *types.Func) bool { return o != nil && o.Name() == "Excludes" }) {
+			if cl, ok := ci.(*ssa.Call); ok {
+				exCalls = append(exCalls, cl)
+			}
+		}
+		for i, cl := range exCalls {
+			c.check(len(notDot) > 0 && guarded(cl.Block(), notDot), id, name, fmt.Sprintf("rules consulted %d only for entries below the root", i), p.Pos(cl.Pos()), "past the name-is-not-\".\" edge", "the package root itself (name \".\") is matched against the ignore rules: a rule such as */ or * then removes the whole package directory and the build fails")
+			// (2) verdict used past the nil-error edge
+			okE, _ := okEdgesOfCall(cl)
+			if v := extractOf(cl, 0); v != nil && v.Referrers() != nil {
+				early := false
+				var uses []ssa.Instruction
+				for _, r := range *v.Referrers() {
+					switch x := r.(type) {
+					case *ssa.DebugRef:
+					case *ssa.Store:
+						// kept in a local: the reads of that local are the uses
+						if al, ok := x.Addr.(*ssa.Alloc); ok && al.Referrers() != nil {
+							for _, r2 := range *al.Referrers() {
+								if fa, ok := r2.(*ssa.FieldAddr); ok {
+									uses = append(uses, fa)
+								}
+								if ld, ok := r2.(*ssa.UnOp); ok {
+									uses = append(uses, ld)
+								}
+							}
+						} else {
+							uses = append(uses, r)
+						}
+					default:
+						uses = append(uses, r)
+					}
+				}
+				for _, r := range uses {
+					if len(okE) == 0 || !guarded(r.Block(), okE) {
+						early = true
+					}
+				}
+				c.check(!early, id, name, fmt.Sprintf("verdict %d used only past its error check", i), p.Pos(cl.Pos()), "every use of the verdict lies past err == nil", "a rule verdict is used before its error was looked at: an invalid rule's error is dropped on the path that acts on the (zero) verdict first, and the build goes on with rules it could not evaluate")
+			}
+		}
+		// (3) the directory form
+		var subtree *ssa.Call
+		for _, cl := range exCalls {
+			for _, a := range cl.Call.Args {
+				if bo, ok := canon(a).(*ssa.BinOp); ok && bo.Op == token.ADD {
+					subtree = cl
+				}
+			}
+		}
+		if subtree == nil {
+			c.fail(id, name, "directory form consulted", p.Pos(w.Pos()), "the rules are never asked about the directory form (name + separator)")
+		} else {
+			sv := extractOf(subtree, 0)
+			var svCell ssa.Value
+			if sv != nil && sv.Referrers() != nil {
+				for _, r := range *sv.Referrers() {
+					if st, ok := r.(*ssa.Store); ok {
+						svCell = st.Addr
+					}
+				}
+			}
+			fieldOfVerdict := func(v ssa.Value, verdict ssa.Value, fname string) bool {
+				if f, ok := v.(*ssa.Field); ok {
+					return f.X == verdict && fieldOf(f) != nil && fieldOf(f).Name() == fname
+				}
+				if ld, ok := v.(*ssa.UnOp); ok && ld.Op == token.MUL {
+					if fa, ok := ld.X.(*ssa.FieldAddr); ok && svCell != nil && fa.X == svCell {
+						return fieldOf(fa) != nil && fieldOf(fa).Name() == fname
+					}
+				}
+				return false
+			}
+			domT, _ := condEdges(w, func(v ssa.Value) bool { return fieldOfVerdict(v, sv, "Dominating") })
+			rec := false
+			for _, ci := range callsTo(w, func(o *types.Func) bool { return isFunc(o, "os", "RemoveAll") }) {
+				if len(domT) > 0 && guarded(ci.Block(), domT) {
+					rec = true
+				}
+			}
+			c.check(rec, id, name, "dominating directory match removes the subtree", p.Pos(subtree.Pos()), "os.RemoveAll past the Dominating edge of the directory-form verdict", "no recursive removal sits on the Dominating edge of the directory-form verdict (the block is gone, moved behind the empty-directory case, or tests the other verdict): excluded trees such as .git stay in the bundle as directory skeletons")
+			// the empty-directory removal can be reached on the directory form's Excluded alone
+			usesSub := false
+			for _, ci := range callsTo(w, func(o *types.Func) bool { return isFunc(o, "os", "Remove") }) {
+				for _, b := range w.Blocks {
+					ifi, ok := b.Instrs[len(b.Instrs)-1].(*ssa.If)
+					if !ok {
+						continue
+					}
+					cnd, _ := stripNot(ifi.Cond)
+					mentions := fieldOfVerdict(cnd, sv, "Excluded")
+					if ph, isPhi := cnd.(*ssa.Phi); isPhi {
+						rs, _ := flagReasons(ph, map[ssa.Value]bool{})
+						for _, r := range rs {
+							if fieldOfVerdict(r.Cond, sv, "Excluded") {
+								mentions = true
+							}
+						}
+					}
+					if mentions && (b.Succs[0] == ci.Block() || reachFromEdge(Edge{b, 0})[ci.Block()]) {
+						usesSub = true
+					}
+				}
+			}
+			// ... and is not decided by the plain-name verdict alone
+			for _, cl := range exCalls {
+				if cl == subtree {
+					continue
+				}
+				iv := extractOf(cl, 0)
+				var ivCell ssa.Value
+				if iv != nil && iv.Referrers() != nil {
+					for _, r := range *iv.Referrers() {
+						if st, ok := r.(*ssa.Store); ok {
+							ivCell = st.Addr
+						}
+					}
+				}
+				isIE := func(v ssa.Value) bool {
+					if ld, ok := v.(*ssa.UnOp); ok && ld.Op == token.MUL {
+						if fa, ok := ld.X.(*ssa.FieldAddr); ok && ivCell != nil && fa.X == ivCell {
+							return fieldOf(fa) != nil && fieldOf(fa).Name() == "Excluded"
+						}
+					}
+					if f, ok := v.(*ssa.Field); ok && f.X == iv {
+						return fieldOf(f) != nil && fieldOf(f).Name() == "Excluded"
+					}
+					return false
+				}
+				ieT, _ := condEdges(w, isIE)
+				for _, ci := range callsTo(w, func(o *types.Func) bool { return isFunc(o, "os", "Remove") }) {
+					if len(ieT) > 0 && guarded(ci.Block(), ieT) {
+						usesSub = false
+					}
+				}
+			}
+			// the recursive removal is not behind the empty-directory case
+			exF := func() []Edge {
+				_, f := condEdges(w, func(v ssa.Value) bool { return fieldOfVerdict(v, sv, "Excluded") })
+				return f
+			}()
+			for _, ci := range callsTo(w, func(o *types.Func) bool { return isFunc(o, "os", "RemoveAll") }) {
+				if len(domT) > 0 && guarded(ci.Block(), domT) && len(exF) > 0 {
+					behind := false
+					for _, e := range exF {
+						if guarded(ci.Block(), []Edge{e}) {
+							behind = true
+						}
+					}
+					c.check(!behind, id, name, "recursive removal decided before the empty-directory case", p.Pos(ci.Pos()), "not behind an Excluded-is-false edge of the same verdict", "the recursive removal can only be reached when the directory form is NOT excluded (it was moved behind the empty-directory case, which returns for every excluded directory): a dominating match no longer removes the subtree")
+				}
+			}
+			c.check(usesSub, id, name, "directory-form verdict takes part in the empty-directory removal", p.Pos(subtree.Pos()), "os.Remove reachable on the directory form's Excluded", "the removal of an excluded, empty directory does not depend on the directory-form verdict: a directory excluded only in its name/ form (logs/, .terraform/) is left in the package")
+		}
+		// (4)
+		for _, ci := range callsTo(w, func(o *types.Func) bool { return isFunc(o, "path/filepath", "Dir") }) {
+			usedInJoin := false
+			if refs := ci.Value().Referrers(); refs != nil {
+				for _, r := range *refs {
+					if st, ok := r.(*ssa.Store); ok {
+						if _, ok := st.Addr.(*ssa.IndexAddr); ok {
+							usedInJoin = true
+						}
+					}
+				}
+			}
+			if !usedInJoin {
+				continue
+			}
+			c.check(canon(ci.Common().Args[0]) == relPath, id, name, "link target joined onto the directory of the entry's name", p.Pos(ci.Pos()), "filepath.Dir(name relative to the root)", "the link's target is joined onto the directory of something other than the entry's name (the root, the absolute path, the target itself): every '..' then counts from the wrong place — escaping links pass, or sub/link -> ../file is refused")
+		}
+		// (5), (6)
+		var absRoot, realPath ssa.Value
+		for _, ci := range callsTo(w, func(o *types.Func) bool { return isFunc(o, "path/filepath", "EvalSymlinks") }) {
+			cl, ok := ci.(*ssa.Call)
+			if !ok {
+				continue
+			}
+			bs := p.backSlice(cl.Call.Args[0], 0)
+			viaAbs := false
+			for x := range bs {
+				if ac, ok := x.(*ssa.Call); ok && isFunc(calleeObj(ac), "path/filepath", "Abs") && capturedParamOf(ac.Call.Args[0], g) == rootIdx {
+					viaAbs = true
+				}
+			}
+			if jc := callOf(canon(cl.Call.Args[0])); jc != nil && isFunc(calleeObj(jc), "path/filepath", "Join") {
+				realPath = extractOf(cl, 0)
+				ja := joinArgs(jc)
+				okJ := len(ja) == 2 && canon(ja[1]) == relPath && absRoot != nil && (canon(ja[0]) == absRoot || p.backSlice(ja[0], 0)[absRoot])
+				c.check(okJ, id, name, "resolved path = resolved root joined with the name", p.Pos(cl.Pos()), "EvalSymlinks(Join(resolved root, name))", "the path that is resolved is not the resolved root joined with the entry's name")
+			} else if viaAbs {
+				absRoot = extractOf(cl, 0)
+			}
+		}
+		for _, ci := range callsTo(w, func(o *types.Func) bool { return isFunc(o, "path/filepath", "Rel") }) {
+			cl, ok := ci.(*ssa.Call)
+			if !ok || cl == rel1 {
+				continue
+			}
+			c.check(absRoot != nil && realPath != nil && canon(cl.Call.Args[0]) == absRoot && canon(cl.Call.Args[1]) == realPath, id, name, "containment compares the resolved root with the resolved path", p.Pos(cl.Pos()), "filepath.Rel(EvalSymlinks(Abs(root)), EvalSymlinks(Join(…)))", "the resolved-path containment is computed between the wrong pair of paths (the unresolved root, the unresolved path, or the path with itself): in-package links are refused, or — with a target directory reached through a link — everything is")
+		}
+		for _, ci := range callsTo(w, func(o *types.Func) bool { return isFunc(o, "os", "Lstat") || isFunc(o, "os", "Stat") }) {
+			c.check(realPath != nil && canon(ci.Common().Args[0]) == realPath, id, name, "type test on the resolved path", p.Pos(ci.Pos()), "os.Lstat(resolved path)", "the regular-file-or-directory test looks at another path than the one the entry resolves to (the root: always a directory; the unresolved path: always a link): special files are let through, or every link is refused")
+		}
+	}
+}
+
+// C08.dirname — what the package-ensuring function hands back is the name it
+// recorded.
+func ruleC08DirName(c *Checker) {
+	const R = "C08.dirname"
+	c.rule(R, "Every success return of the function that fetches a package returns, as the package's directory, either the value it found in Builder.remotePackageDirs for that package or the very value it stored there on the way: the caller opens targetDir/<that> for the dependency finder, and any other same-typed string at hand (the temporary directory, the hash with its prefix, the absolute final path, an empty variable) makes the finder see nothing — dependencies of a second address with the same content are then never discovered.", 2)
+	p := c.P
+	fn, _ := ensureFunc(p)
+	if fn == nil {
+		c.anchorMissing(R, "the package-ensuring function")
+		return
+	}
+	name := p.FuncName(fn)
+	var stored []ssa.Value
+	var found []ssa.Value
+	eachInstr(fn, func(in ssa.Instruction) {
+		switch x := in.(type) {
+		case *ssa.MapUpdate:
+			if builderMapOf(x.Map) == "remotePackageDirs" {
+				stored = append(stored, canon(x.Value))
+			}
+		case *ssa.Lookup:
+			if builderMapOf(x.X) == "remotePackageDirs" && x.CommaOk {
+				if refs := x.Referrers(); refs != nil {
+					for _, r := range *refs {
+						if ex, ok := r.(*ssa.Extract); ok && ex.Index == 0 {
+							found = append(found, ex)
+						}
+					}
+				}
+			}
+		}
+	})
+	n := 0
+	for i, r := range successReturns(fn) {
+		for _, v := range returnValues(r, 0) {
+			if v == nil {
+				continue
+			}
+			n++
+			ok := false
+			for _, s2 := range stored {
+				if canon(v) == s2 || sameLoc(v, s2) {
+					ok = true
+				}
+			}
+			for _, s2 := range found {
+				if canon(v) != s2 {
+					continue
+				}
+				// the looked-up value counts on the found edge only
+				if ex, isEx := s2.(*ssa.Extract); isEx {
+					if okv := extractOf2(ex.Tuple, 1); okv != nil {
+						tE, _ := boolEdges(fn, okv)
+						if len(tE) > 0 && guarded(r.Block(), tE) {
+							ok = true
+						}
+					}
+				}
+			}
+			c.check(ok, R, name, fmt.Sprintf("success return %d hands back the recorded directory", i), p.Pos(r.Pos()), "the value stored in (or found in) remotePackageDirs", "a success return hands back a string other than the directory name recorded for the package: the caller builds the finder's file system from it, sees an empty or wrong directory, and the package's dependencies are never discovered")
+		}
+	}
+	c.check(n > 0, R, name, "success returns", p.Pos(fn.Pos()), fmt.Sprintf("%d", n), "the function has no success return")
+}
+
+// C08.complete — a record is complete when it is copied into the list.
+func ruleRecordComplete(id string) func(*Checker) {
+	return func(c *Checker) {
+		c.rule(id, "In the manifest writer, a local struct that is appended to a list (append copies it) has all its field writes before the append on every path: a field set after the copy was taken is set on the local only and never reaches the manifest.", 1)
+		p := c.P
+		for _, fn := range p.Funcs {
+			if !inBundlePkg(p, fn) {
+				continue
+			}
+			eachInstr(fn, func(in ssa.Instruction) {
+				cl, ok := in.(*ssa.Call)
+				if !ok {
+					return
+				}
+				bi, ok := cl.Call.Value.(*ssa.Builtin)
+				if !ok || bi.Name() != "append" || len(cl.Call.Args) != 2 {
+					return
+				}
+				sl, ok := cl.Call.Args[1].(*ssa.Slice)
+				if !ok {
+					return
+				}
+				arr, ok := sl.X.(*ssa.Alloc)
+				if !ok {
+					return
+				}
+				for _, w := range elemWrites(arr) {
+					ld, ok := w.Val.(*ssa.UnOp)
+					if !ok || ld.Op != token.MUL {
+						continue
+					}
+					loc, ok := ld.X.(*ssa.Alloc)
+					if !ok {
+						continue
+					}
+					if _, isStruct := derefType(loc.Type()).Underlying().(*types.Struct); !isStruct {
+						continue
+					}
+					late := token.NoPos
+					after := reachFromBlock(ld.Block())
+					var fieldStores []*ssa.Store
+					eachInstr(fn, func(x ssa.Instruction) {
+						st, ok := x.(*ssa.Store)
+						if !ok {
+							return
+						}
+						a := st.Addr
+						depth := 0
+						for {
+							fa, ok := a.(*ssa.FieldAddr)
+							if !ok {
+								break
+							}
+							a = fa.X
+							depth++
+						}
+						if depth > 0 && a == ssa.Value(loc) {
+							fieldStores = append(fieldStores, st)
+						}
+					})
+					forEach := func(f func(*ssa.Store)) {
+						for _, st := range fieldStores {
+							f(st)
+						}
+					}
+					forEach(func(st *ssa.Store) {
+						if st.Block() == ld.Block() {
+							// same block: later in the block?
+							seenLoad := false
+							for _, x := range ld.Block().Instrs {
+								if x == ssa.Instruction(ld) {
+									seenLoad = true
+								}
+								if x == ssa.Instruction(st) && seenLoad {
+									late = st.Pos()
+								}
+							}
+							return
+						}
+						// a different block reachable from the copy without passing the local's re-initialisation
+						// (the loop head re-zeroes it): only blocks dominated by the copy's block count
+						if after[st.Block()] && ld.Block().Dominates(st.Block()) {
+							late = st.Pos()
+						}
+					})
+					c.check(late == token.NoPos, id, p.FuncName(fn), "record "+loc.Comment+" complete when appended", p.Pos(cl.Pos()), "every field write precedes the append", "a field of the record is written at "+p.Pos(late)+", after the record was copied into the list: the value never reaches the list (the manifest entry lacks the fetcher's metadata)")
+				}
+			})
+		}
+	}
+}
+
+// extractOf2: the Extract of the given index of a tuple value, if any.
+func extractOf2(tuple ssa.Value, idx int) ssa.Value {
+	if tuple.Referrers() == nil {
+		return nil
+	}
+	for _, r := range *tuple.Referrers() {
+		if ex, ok := r.(*ssa.Extract); ok && ex.Index == idx {
+			return ex
+		}
+	}
+	return nil
 }
